@@ -3,6 +3,8 @@ package codec
 import (
 	"fmt"
 	"strconv"
+	"sync"
+	"sync/atomic"
 	"testing"
 
 	"pgregory.net/rapid"
@@ -201,4 +203,137 @@ func checkC03(cc *C03Case, rec *evid.Rec) (vs []pbt.Violation) {
 func TestC03(t *testing.T) {
 	rec := evid.New("C03")
 	pbt.Run(t, "C03", rec, genC03, checkC03)
+}
+
+// ---- C03 under concurrency: the integrity check is sound whatever else the process parses or serializes meanwhile ----
+//
+// TestC03 offers the variants one after the other. An application parses on one
+// goroutine per connection and serializes on others, so the same neighbourhood
+// is offered here by 4 goroutines while 3 more keep parsing and serializing the
+// intact message (fresh objects per goroutine: nothing is shared by the harness).
+// The oracle is the same: a variant that is not a consistently framed message
+// must not be accepted.
+
+func checkC03Par(cc *C03Case, rec *evid.Rec) (vs []pbt.Violation) {
+	m, err := build.Message(&cc.Case)
+	if err != nil {
+		return []pbt.Violation{pbt.V("build", "cannot build the message: %v", err)}
+	}
+	base, err := m.ToBytes()
+	if err != nil {
+		return []pbt.Violation{pbt.V("tobytes-error", "%v", err)}
+	}
+	base = append([]byte(nil), base...)
+	if err := ref.Framed(base, cc.Tpl.Tags); err != nil {
+		rec.Hist("skipped:base-not-framed")
+		return nil
+	}
+	{
+		var s0 damageStats
+		var v0 []pbt.Violation
+		tryVariant(cc, base, "none", -1, &s0, &v0)
+		if s0.accepted != 2 {
+			rec.Hist("skipped:base-rejected")
+			return nil
+		}
+	}
+	type variant struct {
+		b    []byte
+		kind string
+		pos  int
+	}
+	var variants []variant
+	stride := len(base)/100 + 1
+	for pos := 0; pos < len(base); pos += stride {
+		for _, x := range []byte{base[pos] ^ 1, base[pos] ^ 0x80, '0', 1} {
+			if x == base[pos] {
+				continue
+			}
+			v := append([]byte(nil), base...)
+			v[pos] = x
+			variants = append(variants, variant{v, "substitution", pos})
+		}
+		v := append(append([]byte(nil), base[:pos]...), base[pos+1:]...)
+		variants = append(variants, variant{v, "deletion", pos})
+		if pos >= 1 {
+			v := append(append(append([]byte(nil), base[:pos]...), '7'), base[pos:]...)
+			variants = append(variants, variant{v, "insertion", pos})
+		}
+	}
+	const workers, background = 4, 3
+	stop := make(chan struct{})
+	var bg, wg sync.WaitGroup
+	var bgParses, bgRejected atomic.Int64
+	for g := 0; g < background; g++ {
+		own, err := build.Message(&cc.Case)
+		if err != nil {
+			continue
+		}
+		bg.Add(1)
+		go func() {
+			defer bg.Done()
+			for {
+				select {
+				case <-stop:
+					return
+				default:
+				}
+				if e, err := build.Empty(&cc.Tpl); err == nil {
+					if perr, pan := parse(true, e, base); perr != nil || pan != nil {
+						bgRejected.Add(1)
+					}
+					bgParses.Add(1)
+				}
+				_, _ = own.ToBytes()
+			}
+		}()
+	}
+	stats := make([]damageStats, workers)
+	found := make([][]pbt.Violation, workers)
+	for w := 0; w < workers; w++ {
+		w := w
+		wg.Add(1)
+		go func() {
+			defer wg.Done()
+			for round := 0; round < 3; round++ {
+				for k := w; k < len(variants); k += workers {
+					tryVariant(cc, variants[k].b, variants[k].kind, variants[k].pos, &stats[w], &found[w])
+				}
+			}
+		}()
+	}
+	wg.Wait()
+	close(stop)
+	bg.Wait()
+	var st damageStats
+	for w := range stats {
+		st.variants += stats[w].variants
+		st.stillFramed += stats[w].stillFramed
+		st.accepted += stats[w].accepted
+		st.panics += stats[w].panics
+		for _, v := range found[w] {
+			v.Key = "parallel:" + v.Key
+			vs = append(vs, v)
+		}
+	}
+	if n := bgRejected.Load(); n > 0 {
+		rec.Hist("parallel:intact-message-rejected-meanwhile")
+	}
+	rec.Evals(st.variants)
+	rec.Extra("parallel_variants", st.variants)
+	rec.Extra("parallel_background_parses", bgParses.Load())
+	rec.Case(evid.FP(base), bgParses.Load() > 0)
+	rec.Hist("parallel:engine")
+	if rec.WantSample() {
+		rec.Sample(map[string]any{"engine": "parallel", "base": ref.Show(base), "variants": st.variants, "background_parses_meanwhile": bgParses.Load()})
+	}
+	if len(vs) > 3 {
+		vs = vs[:3]
+	}
+	return vs
+}
+
+func TestC03Parallel(t *testing.T) {
+	rec := evid.New("C03/parallel")
+	pbt.Run(t, "C03", rec, genC03, checkC03Par)
 }
